@@ -34,7 +34,10 @@ PROP = {
     "partial": [
         "GarbageLen through a snapshot: the property text compares the live document's GarbageLen with the decoded one. The live "
         "root's incremental bookkeeping differs from a rebuild of its OWN graph in several identified shapes (findings C09-n1, n2, "
-        "k8, k9, k10) and a residual one (C09-n7); those items never involve the codec. What the codec contributes is judged "
+        "n8, n9, k8, k9, k10; the predicates of n2/n9 read the registered pairs out of gcNodePairMap and state how owner and child "
+        "relate to the graph); the former residual class C09-n7 is dissolved (nothing left of it in 200k histories), a "
+        "bookkeeping difference that no predicate identifies is a violation now; those items never involve the codec. What the "
+        "codec contributes is judged "
         "strictly: tombstones and owner-qualified GC pairs of the live graph vs the decoded graph, and the registrations of a root "
         "rebuilt from each - nothing unexplained is tolerated there",
         "never a crash or hang (hostile bytes): supported only by the malformed streams (codec: goroutine+timeout per call; pbfuzz: "
